@@ -15,6 +15,7 @@ func init() {
 	register(&Prop{ID: "C10", Run: runC10,
 		Technique: "static analysis: reaching condition + enum coverage of the retry reset, must-pass-through in the propagation loop, value-flow of recorded parameters / request ids / node tables, field coverage of the recorder and restorer (go/ssa)",
 		Decided: []string{
+			"the retry constructor reads a node's recorded outputs before that node's Step.OutputVariables is re-pointed to the graph's shared map (C10.outputs-restored)",
 			"the already-running probe refuses a retry only when the live status could not be read or is not `not started` - never on what the recorded run says (C16.probe-table, shared)",
 			"the set of recorded states under which a node is reset, united with the kept states {finished, skipped} and the already-runnable state {not started}, covers every NodeStatus constant (C10.reset-exhaustive)",
 			"the downstream mark is applied for every out-edge of a node marked for retry and every out-neighbour is re-queued (C10.propagate)",
@@ -35,6 +36,7 @@ func runC10(e *Env) {
 	}
 	c10Reset(e, s)
 	c10SameChecks(e, s)
+	c10OutputsRestored(e, s)
 	c10Flows(e, s)
 	c08PersistedFields(e, s)
 	c01Gate(e, s)
@@ -329,14 +331,68 @@ func c10SameChecks(e *Env, s *Sched) {
 	if fn == nil || setup == nil || sr == nil {
 		return
 	}
-	a := ir.CallsIn(fn, func(c *ssa.CallCommon) bool { return c.StaticCallee() == setup })
+	// the call through which the edge/cycle setup runs: setup() itself, or a helper
+	// of the package (a constructor shared with the normal graph) that runs it and
+	// reports nil only when it succeeded
+	var carrier func(f *ssa.Function, d int) []*ssa.Call
+	carrier = func(f *ssa.Function, d int) []*ssa.Call {
+		var out []*ssa.Call
+		for _, ci := range ir.CallsIn(f, func(c *ssa.CallCommon) bool { return c.StaticCallee() != nil }) {
+			c, isC := ci.(*ssa.Call)
+			if !isC {
+				continue
+			}
+			g := c.Call.StaticCallee()
+			if g == setup {
+				out = append(out, c)
+				continue
+			}
+			if d > 2 || g == sr || g.Blocks == nil || !e.P.Funcs[g] || rootFn(g).Package() != fn.Package() || g == f {
+				continue
+			}
+			if !e.reachesStatic(g, func(x *ssa.Function) bool { return x == setup }) {
+				continue
+			}
+			inner := carrier(g, d+1)
+			if len(inner) != 1 {
+				continue
+			}
+			// g hands back a nil error only after the inner call succeeded
+			errIdx := -1
+			for i := 0; i < g.Signature.Results().Len(); i++ {
+				if g.Signature.Results().At(i).Type().String() == "error" {
+					errIdx = i
+				}
+			}
+			if errIdx < 0 {
+				continue
+			}
+			good := true
+			for _, blk := range g.Blocks {
+				rt, isR := blk.Instrs[len(blk.Instrs)-1].(*ssa.Return)
+				if !isR || !e.Facts(g).Reachable(blk) {
+					continue
+				}
+				for _, rv := range RetVals(rt, errIdx) {
+					if ir.Resolve(rv) == ssa.Value(inner[0]) || errOfCall(inner[0]) != nil && ir.Resolve(rv) == errOfCall(inner[0]) {
+						continue // the setup's own verdict is handed on
+					}
+					if e.mayBeNil(rt, rv) && !e.onlyAfterOK(inner[0], rt) {
+						good = false
+					}
+				}
+			}
+			if good {
+				out = append(out, c)
+			}
+		}
+		return out
+	}
+	a := carrier(fn, 0)
 	b := ir.CallsIn(fn, func(c *ssa.CallCommon) bool { return c.StaticCallee() == sr })
 	ok := len(a) == 1 && len(b) == 1
 	if ok {
-		ok = false
-		if ac, isC := a[0].(*ssa.Call); isC {
-			ok = e.onlyAfterNil(ac, b[0])
-		}
+		ok = e.onlyAfterOK(a[0], b[0])
 	}
 	r.Check(ok, "NewExecutionGraphForRetry: setupRetry() only after setup()==nil", e.Pos(fn.Pos()),
 		"the retry graph is reset / returned without the dependency and cycle checks of the normal constructor having succeeded")
@@ -358,12 +414,190 @@ func c10SameChecks(e *Env, s *Sched) {
 			}
 			okb := false
 			if len(a) == 1 {
-				if ac, isC := a[0].(*ssa.Call); isC {
-					okb = e.onlyAfterNil(ac, rt)
-				}
+				okb = e.onlyAfterOK(a[0], rt)
 			}
 			r.Check(okb, "NewExecutionGraphForRetry: a graph is returned only when setup() succeeded", e.InstrPos(rt), "a graph with dangling dependencies or a cycle is admitted for retry")
 		}
+	}
+}
+
+// errOfCall: the error result of a call: the call itself (single error result) or
+// the extract of the error component of its tuple; nil when there is none (or it
+// is dropped).
+func errOfCall(c *ssa.Call) ssa.Value {
+	if tup, isT := c.Type().(*types.Tuple); isT {
+		for i := 0; i < tup.Len(); i++ {
+			if tup.At(i).Type().String() != "error" {
+				continue
+			}
+			for _, ref := range *c.Referrers() {
+				if ex, ok := ref.(*ssa.Extract); ok && ex.Index == i {
+					return ex
+				}
+			}
+		}
+		return nil
+	}
+	if c.Type().String() == "error" {
+		return c
+	}
+	return nil
+}
+
+// onlyAfterOK: onlyAfterNil for calls that report their error next to other results.
+func (e *Env) onlyAfterOK(call *ssa.Call, target ssa.Instruction) bool {
+	ev := errOfCall(call)
+	if ev == nil {
+		return false
+	}
+	if ev == ssa.Value(call) {
+		return e.onlyAfterNil(call, target)
+	}
+	for _, l := range e.DCS(target) {
+		if l.Kind == "cmp" && l.Op == token.EQL && ir.IsNilConst(l.Y) && ir.Resolve(l.X) == ev {
+			return true
+		}
+	}
+	if call.Parent() != target.Parent() || !ir.Precedes(call, target) {
+		return false
+	}
+	return !ir.ReachableAssuming(call, target, map[ssa.Value]bool{ev: true})
+}
+
+// c10OutputsRestored: a retry runs with the outputs the kept steps recorded. The
+// retry constructor reads each node's recorded map (the Range whose callback stores
+// into the graph's shared map) BEFORE that node's Step.OutputVariables is re-pointed
+// to the shared map; read afterwards, the "recorded" map is the fresh, empty shared one
+// and nothing is restored.
+func c10OutputsRestored(e *Env, s *Sched) {
+	r := e.R
+	r.Rule("C10.outputs-restored", "MPT", "retry constructor: the recorded outputs are read before the node is re-pointed to the shared map", 1)
+	fn := e.Fn(schedRel, "NewExecutionGraphForRetry")
+	if fn == nil {
+		return
+	}
+	outMap := e.schedOutputMapField()
+	inTree := map[*ssa.Function]bool{}
+	var tree []*ssa.Function
+	for _, g := range e.staticClosure(fn) {
+		if rootFn(g).Package() == fn.Package() && g.Blocks != nil {
+			for _, h := range ir.WithClosures(g) {
+				if !inTree[h] {
+					inTree[h] = true
+					tree = append(tree, h)
+				}
+			}
+		}
+	}
+	// lift an instruction of the tree to the statement of fn that leads to it
+	var lift func(in ssa.Instruction, d int) ssa.Instruction
+	lift = func(in ssa.Instruction, d int) ssa.Instruction {
+		if in == nil || d > 5 {
+			return nil
+		}
+		f := in.Parent()
+		if f == fn {
+			return in
+		}
+		if f.Parent() != nil {
+			return lift(closureSite(f), d+1)
+		}
+		var up []ssa.CallInstruction
+		for _, cs := range e.StaticCallSites(f) {
+			if inTree[cs.Parent()] {
+				up = append(up, cs)
+			}
+		}
+		if len(up) != 1 {
+			return nil
+		}
+		return lift(up[0], d+1)
+	}
+	// the restoring Range: over a node's Step.OutputVariables, with a callback that
+	// stores into the graph's map
+	var ranges []ssa.CallInstruction
+	for _, g := range tree {
+		for _, ci := range ir.CallsIn(g, func(c *ssa.CallCommon) bool {
+			return ir.IsCallTo(c, "(*sync.Map).Range") || strings.HasSuffix(ir.CalleeName(c), "SyncMap).Range")
+		}) {
+			recvv := ci.Common().Args[0]
+			if fa, isFA := recvv.(*ssa.FieldAddr); isFA {
+				recvv = fa.X
+			}
+			if !e.IsFieldRead(recvv, nil, "Step.OutputVariables") && !e.IsFieldRead(ir.Deep(recvv), nil, "Step.OutputVariables") {
+				continue
+			}
+			stores := false
+			if mc, isMC := ir.Resolve(ci.Common().Args[len(ci.Common().Args)-1]).(*ssa.MakeClosure); isMC {
+				for _, h := range e.callbackBodies(mc.Fn.(*ssa.Function)) {
+					for _, sc := range ir.CallsIn(h, func(c *ssa.CallCommon) bool { return strings.HasSuffix(ir.CalleeName(c), "Map).Store") }) {
+						a0 := sc.Common().Args[0]
+						if fa, isFA := a0.(*ssa.FieldAddr); isFA {
+							a0 = fa.X
+						}
+						if outMap == "" || e.IsFieldRead(a0, nil, outMap) || e.IsFieldRead(ir.Deep(a0), nil, outMap) {
+							stores = true
+						}
+					}
+				}
+			}
+			if stores {
+				ranges = append(ranges, ci)
+			}
+		}
+	}
+	if len(ranges) == 0 {
+		r.Bad("NewExecutionGraphForRetry: the recorded outputs are copied into the graph's shared map", e.Pos(fn.Pos()),
+			"the retry constructor no longer ranges over the nodes' recorded output maps: re-executed steps run without the outputs of the kept steps")
+		return
+	}
+	// the re-pointing stores
+	type site struct{ at, lifted ssa.Instruction }
+	var repoints []site
+	for _, g := range tree {
+		if g.Parent() != nil {
+			continue
+		}
+		for _, ev := range e.C.FieldStores(g, "Step.OutputVariables") {
+			if ev.Site == nil || len(ev.Via) > 0 || ev.Init {
+				continue
+			}
+			repoints = append(repoints, site{ev.Site, lift(ev.Site, 0)})
+		}
+	}
+	for _, rg := range ranges {
+		lr := lift(rg, 0)
+		if lr == nil {
+			r.Unknown("NewExecutionGraphForRetry: position of the restoring Range", e.InstrPos(rg), "the Range is in a helper with several call sites")
+			continue
+		}
+		okOrder := true
+		var facts []string
+		for _, rp := range repoints {
+			if rp.lifted == nil {
+				continue
+			}
+			from := rp.lifted
+			// same iteration only: the back edges of the loops around the store are not followed
+			loops := ir.Loops(fn)
+			bad, _ := ir.Bypass(from, nil, ir.PathQuery{
+				Bad: func(in ssa.Instruction) bool { return in == lr },
+				SkipEdge: func(b *ssa.BasicBlock, k int) bool {
+					sx := b.Succs[k]
+					for _, l := range loops {
+						if l.Header == sx && l.Blocks[b] && l.Blocks[from.Block()] && l.Blocks[lr.Block()] {
+							return true
+						}
+					}
+					return false
+				}})
+			if bad != nil || from == lr {
+				okOrder = false
+				facts = append(facts, "Step.OutputVariables re-pointed at "+e.InstrPos(rp.at)+" (reached from "+e.InstrPos(from)+") before the Range")
+			}
+		}
+		r.Check(okOrder, "NewExecutionGraphForRetry: the recorded outputs are read before the node's map is replaced", e.InstrPos(rg),
+			"the node's Step.OutputVariables is re-pointed to the graph's fresh shared map before the recorded map is read: the restoring Range walks the empty shared map, nothing is restored, and on retry a step whose precondition or command uses a kept step's output is skipped or runs with an empty value", facts...)
 	}
 }
 
@@ -727,4 +961,54 @@ func (e *Env) onlyAfterNil(call *ssa.Call, target ssa.Instruction) bool {
 		return false
 	}
 	return !ir.ReachableAssuming(call, target, map[ssa.Value]bool{call: true})
+}
+
+// schedOutputMapField: the ExecutionGraph field holding the shared output map (by its type).
+func (e *Env) schedOutputMapField() string {
+	outMap := "outputVariables"
+	if sp := e.P.Pkg(schedRel); sp != nil {
+		if gt := sp.Type("ExecutionGraph"); gt != nil {
+			if st, ok := gt.Type().Underlying().(*types.Struct); ok {
+				for i := 0; i < st.NumFields(); i++ {
+					if strings.HasSuffix(ir.NamedType(st.Field(i).Type()), "dag.SyncMap") {
+						outMap = st.Field(i).Name()
+					}
+				}
+			}
+		}
+	}
+	return outMap
+}
+
+// callbackBodies: the code a callback value runs: the closure with its own closures
+// and the package functions it calls; for a bound method value (`obj.method`) the
+// method behind the synthetic wrapper.
+func (e *Env) callbackBodies(cb *ssa.Function) []*ssa.Function {
+	var roots []*ssa.Function
+	if cb.Synthetic != "" {
+		for _, ci := range ir.CallsIn(cb, func(c *ssa.CallCommon) bool { return c.StaticCallee() != nil }) {
+			roots = append(roots, ci.Common().StaticCallee())
+		}
+	} else {
+		roots = append(roots, cb)
+	}
+	seen := map[*ssa.Function]bool{}
+	var out []*ssa.Function
+	for _, rt := range roots {
+		for _, h := range ir.WithClosures(rt) {
+			if !seen[h] {
+				seen[h] = true
+				out = append(out, h)
+			}
+		}
+		if e.P.Funcs[rt] {
+			for _, g := range e.withPkgHelpers(rt) {
+				if !seen[g] {
+					seen[g] = true
+					out = append(out, g)
+				}
+			}
+		}
+	}
+	return out
 }
